@@ -28,9 +28,13 @@ ASSUMED = [
     "rust get_type_name is a function of the type definition and of `optional or is_special(type)` (its Option rule is checked on every field of lib.rs by the item table, and on evolved models by C06)",
     "rust to_snake_case is a function str -> str (its camelCase image is table-checked on every committed name)",
     "rust _get_doc returns lines starting with '///'",
-    "rust generate_extras returns lines starting with '#[cfg(' or '#[deprecated'",
 ]
 
+
+DISCHARGED = [
+    "rust is_special / is_special_property: null-admitting `or` / `tuple` (contracts/genhelpers.rust_special_items)",
+    "rust generate_extras returns only the proposed gate and #[deprecated...] lines (contracts/genhelpers.rust_extras_item)",
+]
 
 RUST_KW = "as break const continue crate else enum extern false fn for if impl in let loop match mod move mut pub ref return self static struct super trait true type unsafe use where while async await dyn abstract become box do final macro override priv typeof unsized virtual yield try".split()
 
@@ -76,7 +80,7 @@ def build():
     ext("to_snake_case", [("name", ["str"])], lambda c, a: SReturn(VStr(f"(uf_to_snake_case {force(c, a['name']).t})")), ASSUMED[1])
     ext("get_type_name", [("type_def", [("obj", "TypeDef")]), ("types", ["other"]), ("spec", ["other"]), ("optional", ["none", "bool"]), ("name_context", ["none", "str"])], s_type_name, ASSUMED[0])
     ext("_get_doc", [("doc", ["none", "str"])], s_doc, ASSUMED[2])
-    ext("generate_extras", [("type_def", ["other"])], s_extras, ASSUMED[3])
+    ext("generate_extras", [("type_def", ["other"])], s_extras, DISCHARGED[1])
     fp = world.functions.get(f"{REL}::is_special_property")
     if fp is not None:
         fp.contract = Contract("is_special_property", [("prop_def", [("obj", "Property")])], lambda c, a: TRUE, lambda c, a: SReturn(VBool(f"(uf_is_special {force(c, interp.getattr(c, a['prop_def'], 'type')).oid})")), "is_special of the property's type")
